@@ -11,7 +11,7 @@ TIER=quick
 export PUBLISH_SKIP_BUILD=1 CARGO_NET_OFFLINE=true
 mkdir -p "$SCRATCH"
 [ -d "$SCRATCH/repo" ] || git -C /repo worktree add -q --detach "$SCRATCH/repo" HEAD || exit 2
-git -C "$SCRATCH/repo" checkout -q --detach "$(git -C /repo rev-parse HEAD)" || exit 2
+git -C "$SCRATCH/repo" checkout -q --detach "${BASE_COMMIT:-$(git -C /repo rev-parse HEAD)}" || exit 2
 git -C "$SCRATCH/repo" checkout -q -- . || exit 2
 mkdir -p "$SCRATCH/verif"
 rsync -a --delete --exclude target "$VERIF/harness/" "$SCRATCH/verif/harness/"
